@@ -871,7 +871,7 @@ package storage
 //@ func (rs *RelationService) FlushWALBatch(batch WALBatch) error
 //@   props C02 C03 C13
 //@   requires txn == 1 && rs.wal != nil && rs.wal.reader != nil && (forall i int :: 0 <= i && i < len(batch) ==> batch[i] != nil)
-//@   modifies storeState, walWrites, walSyncs, wlen
+//@   modifies storeState, walWrites, walSyncs, wlen, wbyte
 //@   ensures[held; C13] txn == 1
 //@   ensures[all; C02 C03] result == nil ==> walWrites == old(walWrites) + 2*len(batch)
 
